@@ -20,7 +20,7 @@ PROP = dict(
               "'credit' invariant between execution and hook; induction over histories; ERC-20 ledger sum invariant) + vm_compute correspondence "
               "and backing monitor against the real erc20 keeper, bank and EVM (multi-log receipts through a real multicall contract and at keeper level)",
     modelled=[
-        "x/erc20/keeper/msg_server.go ConvertCoin/ConvertERC20, convertCoinNativeCoin, convertERC20NativeCoin, convertERC20NativeToken, convertCoinNativeERC20",
+        "x/erc20/keeper/msg_server.go ConvertCoin/ConvertERC20 (incl. the refusal of a coin whose denomination only resolves to the pair through the address index: msg.Coin.Denom != pair.Denom), convertCoinNativeCoin, convertERC20NativeCoin, convertERC20NativeToken, convertCoinNativeERC20",
         "x/erc20/keeper/evm_hooks.go PostTxProcessing (the loop over all logs of a receipt: Transfer / other events, registered / unregistered contracts, "
         "amount sign, destination, pair switch, burn or mint, payout, every `continue`)",
         "x/erc20/keeper/mint.go MintingEnabled",
